@@ -101,6 +101,33 @@ def gen_cases(ctx, n):
     return out
 
 
+def corpus_cases(ctx):
+    """tie (c): real -lzs-/-lz5- members (LArc) parsed by vlib/lhparse.py; the Lean spec must re-serialise them bit for bit and
+    the C output on the real bytes must equal the spec expansion of the parsed commands"""
+    from vlib import corpus, lhparse
+    lhv = core.lhv_path()
+    bm = corpus.by_method(lhv)
+    items = []
+    for meth, pf in (("lzs", lhparse.parse_lzs), ("lz5", lhparse.parse_lz5)):
+        for m in bm.get("-%s-" % meth, []):
+            cmds, produced = pf(m["data"], m["length"])
+            items.append((meth, m, cmds))
+    ser, _ = core.run_lines_parallel([lhv], ["lzser %s %s" % (meth, c) for meth, m, c in items])
+    out = []
+    for (meth, m, cmds), o in zip(items, ser):
+        sb = bytes.fromhex(o) if o not in ("-", "bad-op") else b""
+        tie = None
+        if not (m["data"].startswith(sb) and len(m["data"]) - len(sb) <= 2):
+            tie = "Spec.Lz77.serialise%s does not reproduce a real member of %s bit for bit" % (meth, m["archive"])
+        sj0 = mk_spec_judge(m["length"])
+
+        def sj(c_out, s_out, tie=tie, sj0=sj0):
+            return ("TIE: " + tie) if tie else sj0(c_out, s_out)
+        out.append(Case(S.dec_op(meth, m["length"], 0, -1, [], m["data"]), spec="lzexp %s %s" % (meth, cmds), spec_judge=sj,
+                        tags={"corpus", "m=" + meth}, note="C corpus"))
+    return out
+
+
 def nontrivial(c):
     return (c.note is not None) and ("C" in c.note or c.note == "big")
 
